@@ -425,6 +425,23 @@ pub fn c10(c: &mut Ctx, b: &Budget) {
         let w = guarded(|| e.encrypt_to_recipient(pk));
         if let Ok(w) = w { let got = guarded(|| w.decrypt_to_recipient(sk)); c.check("encrypt-to-recipient-roundtrip", matches!(&got, Ok(Ok(d)) if d.is_identical_to(&e)), "encrypt-to-recipient-roundtrip", || shape(&e));
             let got = guarded(|| w.decrypt_to_recipient(&outsiders[0].0)); c.check("outsider-fails", matches!(got, Ok(Err(_))), "outsider-opens", || "whole form".into()); }
+        // layers: an envelope that is already encrypted to this very recipient, encrypted to it again (a relayed message): one
+        // decrypt_to_recipient takes off one layer, no more
+        if let Ok(inner) = guarded(|| e.encrypt_to_recipient(pk)) {
+            if let Ok(outer) = guarded(|| inner.encrypt_to_recipient(pk)) {
+                let got = guarded(|| outer.decrypt_to_recipient(sk));
+                c.check("encrypt-to-recipient-roundtrip", matches!(&got, Ok(Ok(d)) if d.is_identical_to(&inner) && d.digest() == inner.digest()), "encrypt-to-recipient-roundtrip", || format!("two layers to one recipient: one decrypt returned {:?} instead of the inner encrypted envelope", got.as_ref().map(|r| r.as_ref().map(|d| shape(d)).map_err(|e| e.to_string()))));
+                if let Ok(Ok(d)) = &got { let got2 = guarded(|| d.decrypt_to_recipient(sk)); c.check("encrypt-to-recipient-roundtrip", matches!(&got2, Ok(Ok(d2)) if d2.is_identical_to(&e)), "encrypt-to-recipient-roundtrip", || "second layer".into()); }
+                import(c, &outer);
+                c.count("branch:two-layers-one-recipient");
+            }
+            // ... and subject-only: the inner envelope as it stands gets a second recipient layer through the multi-recipient form
+            let two: Vec<&dyn bc_envelope::Encrypter> = vec![pk as &dyn bc_envelope::Encrypter, &outsiders[1].1 as &dyn bc_envelope::Encrypter];
+            if let Ok(Ok(outer2)) = guarded(|| inner.wrap_envelope().encrypt_subject_to_recipients(&two)) {
+                let got = guarded(|| outer2.decrypt_subject_to_recipient(sk).and_then(|d| d.unwrap_envelope()));
+                c.check("encrypt-to-recipient-roundtrip", matches!(&got, Ok(Ok(d)) if d.is_identical_to(&inner)), "encrypt-to-recipient-roundtrip", || "wrapped inner envelope through the multi-recipient form".into());
+            }
+        }
         // seal / unseal
         let sender = PrivateKeyBase::new();
         let recip = PrivateKeyBase::new();
